@@ -229,6 +229,7 @@ def eval_shards(outdir, timeout=1500):
     procs = []
     errors = []
     mism = []
+    diag = []
     maxpar = 16
     pending = list(shards)
     running = []
@@ -258,6 +259,10 @@ def eval_shards(outdir, timeout=1500):
             for n in re.findall(r"(\d+)%nat|(\d+)", m.group(1)):
                 v = int(n[0] or n[1])
                 mism.append(k * size + v)
+            mr = re.search(r"R\s*=\s*(\[.*?\])\s*:\s*list", out, flags=re.S)
+            if mr and mr.group(1).strip() != "[]":
+                # (case index within the shard, position of the first rejected event / probe)
+                diag.append("shard %d (cases %d..): first rejections %s" % (k, k * size, re.sub(r"\s+", " ", mr.group(1))[:400]))
         running = still
 
     while pending or running:
@@ -280,6 +285,7 @@ def eval_shards(outdir, timeout=1500):
                 os.remove(f)
             except OSError:
                 pass
+    eval_shards.last_diag = diag
     return sorted(mism), errors, len(shards)
 
 
@@ -405,7 +411,8 @@ def standard_check(prop_id, tier, seed, spec):
     if mism:
         cases = load_cases(outdir, mism[:20])
         broken.append({"what": "correspondence: model and implementation disagree", "count": len(mism),
-                       "cases": [cases[i] for i in sorted(cases)]})
+                       "cases": [cases[i] for i in sorted(cases)],
+                       "monitor_diagnosis": getattr(eval_shards, "last_diag", [])[:10]})
 
     replay = None
     vio_line = None
